@@ -155,11 +155,9 @@ Qed.
 Lemma coll_id_kv_on s x cid key op name : coll_id (sr_store (kv_on s x cid key op)) name = coll_id s name.
 Proof.
   unfold kv_on; cbv zeta; cbn [sr_store]. unfold coll_id; cbn [s_colls].
-  destruct (kr_commit _); [|destruct (is_withmeta op && _); [|reflexivity]].
-  - induction (s_colls s) as [|[id [nm lc]] r IH]; cbn; [reflexivity|].
-    destruct (id =? cid); cbn; destruct (String.eqb nm name); cbn; auto.
-  - induction (s_colls s) as [|[id [nm lc]] r IH]; cbn; [reflexivity|].
-    destruct (id =? cid); cbn; destruct (String.eqb nm name); cbn; auto.
+  destruct (kr_commit _); [|reflexivity].
+  induction (s_colls s) as [|[id [nm lc]] r IH]; cbn; [reflexivity|].
+  destruct (id =? cid); cbn; destruct (String.eqb nm name); cbn; auto.
 Qed.
 
 Lemma get_doc_kv_on s x cid key op :
